@@ -419,6 +419,14 @@ func suiteAlias(rn *runner, r *rng, tier string) {
 	for i := 0; i < nc; i++ {
 		aliasChainCase(rn, r.fork(), 4+r.intn(12), "alias")
 	}
+	// … and with documents holding more than 1 MiB of copied strings (what a copy shares may depend on its size)
+	nb := 16
+	if tier == "thorough" {
+		nb = 300
+	}
+	for i := 0; i < nb; i++ {
+		aliasChainCaseBig(rn, r.fork(), 4+r.intn(6), "alias")
+	}
 	n := 800
 	if tier == "thorough" {
 		n = 20000
